@@ -304,7 +304,13 @@ def process (m : Mdl) (r : Req) (out : IO.FS.Stream) : IO Unit := do
     let tpTab := if r.tpx.isEmpty then m.tp else r.tpx
     let noskip := tms.all fun t => t ≥ 0 && noSkipB ne (tpTab.getD t.toNat #[])
     let b (x : Bool) : String := if x then "1" else "0"
-    out.putStrLn s!"HYP wf={b wf} noskip={b noskip} nframe={r.nframe} nstates={S}"
+    -- hypotheses of C04_alignStep_WFTokens on the dumped window arrays (then `wf` is a consequence for the step model)
+    let mono := (List.range (efA.size - 1)).all fun i => efA.getD i 0 ≤ efA.getD (i + 1) 0
+    let sf0 := sfA.getD 0 0 ≤ 0
+    let tend := (r.nframe : Int) ≤ efA.getD (sfA.size - 1) 0
+    let tbound := (r.nframe : Int) * 33022 ≤ 533000000
+    let alive := r.final.score > SSVerif.Align.Step.worst
+    out.putStrLn s!"HYP wf={b wf} noskip={b noskip} nframe={r.nframe} nstates={S} mono={b mono} sf0={b sf0} tend={b tend} tbound={b tbound} alive={b alive}"
   -- the constrained Viterbi step model on the senone scores the hand-stepped second pass saw
   match r.mfinal with
   | none => pure ()
